@@ -3,11 +3,11 @@ CONSTANTS
   P = 3
   DstLists <- DL12
   Dsts <- Dsts123
-  IAs <- IA12
+  IAs <- IA1
   MaxN = 1
   Delays <- D04
-  Horizon = 10
-  MaxUpd = 4
+  Horizon = 9
+  MaxUpd = 3
   KeepOnFail = FALSE
   Dedup = FALSE
   GenLen = 0
